@@ -28,11 +28,18 @@ def translator():
     return _TR
 
 
+TRANSLATION_ERROR = None     # set when the source could not be translated (the oracle still runs on static signatures)
+
+
 def sigs():
-    global _SIGS
+    global _SIGS, TRANSLATION_ERROR
     if _SIGS is None:
         from translate import kernels
-        _SIGS = kernels.signature_table(translator())
+        try:
+            _SIGS = kernels.signature_table(translator())
+        except Exception as e:      # outside the translator's subset: stage A reports it; keep stage C alive
+            TRANSLATION_ERROR = f"{type(e).__name__}: {e}"
+            _SIGS = kernels.signature_table_static()
     return _SIGS
 
 
